@@ -424,3 +424,20 @@ def c14_twice(viol, inp, param):
 @classifier("c14_indexed_reference_in_imported_file_sees_only_that_file")
 def c14_eref(viol, inp, param):
     return viol["aspect"] in _C14_ASPECTS and _c14_flags(viol)[2] == 1
+
+
+# ---- C47: code is drawn with non-breaking spaces that are not in the corpus the font subsets are cut from --------
+@classifier("c47_nbsp_of_code_not_in_subset")
+def c47_nbsp(viol, inp, param):
+    if viol["aspect"] != "character-drawn-in-a-font-whose-embedded-subset-has-no-glyph-for-it":
+        return False
+    style, missing, _ = json.loads(viol["detail"])
+    return style.startswith("mono") and missing.get("__set__") == [160]
+
+
+@classifier("c47_greek_capital_omega_dropped_from_italic_subset")
+def c47_omega(viol, inp, param):
+    if viol["aspect"] != "character-drawn-in-a-font-whose-embedded-subset-has-no-glyph-for-it":
+        return False
+    style, missing, _ = json.loads(viol["detail"])
+    return style == "italic" and missing.get("__set__") == [937]
